@@ -165,6 +165,11 @@ func main() {
 	var labels []string
 	mr := r.Fork() // SDK shape: a third of the scenarios install an SDK with 2-3 readers
 	add := func(label string, sc Scenario) {
+		for _, st := range sc.Steps {
+			if st.Op == opProp && st.Arg == 1 {
+				sc.WatchdogS = 25 // a re-entrant propagator: a self-deadlock shows as Stuck (microseconds of work)
+			}
+		}
 		if sc.Kind == "seq" || sc.Kind == "storm" {
 			if mr.Chance(1, 3) {
 				sc.Readers = mr.Range(2, 3)
